@@ -206,7 +206,7 @@ SubClass(e) ==
         ELSE IF EigKnown(e.gen) THEN (IF HasRepeat(EigReal(e.gen)) THEN "repeated_eigenvalues" ELSE "distinct_real")
         ELSE IF e.outcome = "ok" /\ e.vfxok /\ CloseVals(e) THEN "repeated_eigenvalues" ELSE "unknown_spectrum")
   ELSE IF e.routine = "gramschmidt" THEN (IF FullColRank(e.gen) THEN "full_rank" ELSE "rank_deficient")
-  ELSE IF e.routine \in {"msqrt", "msqrtinv"} /\ e.gen.cls = "spd" /\ e.gen.k > 0 /\ e.gen.n = 4 THEN "graded_spd_4x4"
+  ELSE IF e.routine \in {"msqrt", "msqrtinv"} /\ e.gen.cls = "spd" /\ e.gen.n = 4 THEN "spd_4x4"
   ELSE "any"
 
 Report(e, v) ==
